@@ -432,6 +432,99 @@ theorem sound_all (hC : CFacts) : ∀ n, SoundI n ∧ SoundU n ∧ SoundW n ∧ 
     ⟨soundI_step hC ih.2.2.2, soundU_step ih.1, soundW_step hC ih.2.1,
       soundR_step hC ih.1 ih.2.1 ih.2.2.1⟩
 
+/-- `inner_unify` at the top level: only the parts to the LEFT of the rightmost compounds need
+`Inv`; for the rightmost compounds soundness of their own unification suffices (so they may
+carry pseudo-elements, as far as `compound_unify_sound` allows). -/
+theorem innerUnify_sound_top (hC : CFacts) {n : Nat} (hR : SoundR n) (a b : Selector) (L : List Selector)
+    (hla : ∀ k s c, a = .rel k s c → Inv s) (hlb : ∀ k s c, b = .rel k s c → Inv s)
+    (hcu : ∀ c, Compound.unify unifySpec a.compound b.compound = some c →
+      CS a.compound c = true ∧ CS b.compound c = true)
+    (h : innerUnifyN unifySpec (n + 1) a b = some L) : ∀ u ∈ L, sup a u ∧ sup b u := by
+  intro u hu
+  simp only [innerUnifyN] at h
+  cases a with
+  | leaf ca =>
+    cases b with
+    | leaf cb =>
+      simp only [Selector.relOf, Selector.compound] at h hcu
+      cases hc : Compound.unify unifySpec ca cb with
+      | none => simp [hc] at h
+      | some c =>
+        simp only [hc, List.isEmpty_nil, if_true, Option.some.injEq] at h
+        subst h
+        simp only [List.mem_singleton] at hu
+        subst hu
+        have := hcu c hc
+        exact ⟨by simpa [sup, Selector.isSuperC, Selector.compound] using this.1,
+          by simpa [sup, Selector.isSuperC, Selector.compound] using this.2⟩
+    | rel kb sb cb =>
+      simp only [Selector.relOf, Selector.compound] at h hcu
+      cases hc : Compound.unify unifySpec ca cb with
+      | none => simp [hc] at h
+      | some c =>
+        simp only [hc, List.isEmpty_cons, Bool.false_eq_true, if_false, Option.some.injEq] at h
+        subst h
+        split at hu
+        · simp at hu
+        · simp only [List.map_cons, List.map_nil, List.mem_singleton] at hu
+          subst hu
+          have := hcu c hc
+          exact ⟨by simpa [sup, Selector.isSuperC, Selector.compound] using this.1,
+            link_same kb (sup_refl hC sb) _ _ this.2⟩
+  | rel ka sa ca =>
+    cases b with
+    | leaf cb =>
+      simp only [Selector.relOf, Selector.compound] at h hcu
+      cases hc : Compound.unify unifySpec ca cb with
+      | none => simp [hc] at h
+      | some c =>
+        simp only [hc, List.isEmpty_cons, Bool.false_eq_true, if_false, Option.some.injEq] at h
+        subst h
+        split at hu
+        · simp at hu
+        · simp only [List.map_cons, List.map_nil, List.mem_singleton] at hu
+          subst hu
+          have := hcu c hc
+          exact ⟨link_same ka (sup_refl hC sa) _ _ this.1,
+            by simpa [sup, Selector.isSuperC, Selector.compound] using this.2⟩
+    | rel kb sb cb =>
+      simp only [Selector.relOf, Selector.compound] at h hcu
+      cases hv : unifyRelboxN unifySpec n (ka, sa) (kb, sb) with
+      | none => simp [hv] at h
+      | some v =>
+        simp only [hv] at h
+        by_cases hve : v.isEmpty = true
+        · simp [hve] at h
+        · simp only [hve, Bool.false_eq_true, if_false] at h
+          cases hc : Compound.unify unifySpec ca cb with
+          | none => simp [hc] at h
+          | some c =>
+            simp only [hc, Option.some.injEq] at h
+            subst h
+            have hl := hR ka sa kb sb v (hla _ _ _ rfl) (hlb _ _ _ rfl) hv
+            have hcc := hcu c hc
+            split at hu
+            · simp at hu
+            · simp only [List.mem_map] at hu
+              obtain ⟨p, hp, rfl⟩ := hu
+              exact ⟨(hl p hp).1 _ _ hcc.1, (hl p hp).2 _ _ hcc.2⟩
+
+
+theorem unify_sound_top (hC : CFacts) (a b : Selector)
+    (hla : ∀ k s c, a = .rel k s c → Inv s) (hlb : ∀ k s c, b = .rel k s c → Inv s)
+    (hcu : ∀ c, Compound.unify unifySpec a.compound b.compound = some c →
+      CS a.compound c = true ∧ CS b.compound c = true)
+    (u : Selector) (hu : u ∈ Selector.unify unifySpec a b) : sup a u ∧ sup b u := by
+  unfold Selector.unify at hu
+  have hf : 8 * (a.length + b.length) + 8 = (8 * (a.length + b.length) + 6) + 1 + 1 := by omega
+  rw [hf] at hu
+  simp only [unifyN] at hu
+  cases h : innerUnifyN unifySpec (8 * (a.length + b.length) + 6 + 1) a b with
+  | none => simp [h] at hu
+  | some L =>
+    rw [h] at hu
+    exact innerUnify_sound_top hC (sound_all hC _).2.2.2 a b L hla hlb hcu h u (by simpa using hu)
+
 /-- `[a] ⊒ [u]` as `selector.is-superselector` computes it is the self-fuelling selector test -/
 theorem isSuper_singleton (q : SuperQuirks) (a u : Selector) :
     SelSet.isSuper q [a] [u] = Selector.isSuperF q a u := by
